@@ -36,6 +36,15 @@ why={
 'C09-m5':'CallStm.format: the appended modifier binding passes through sort.Slice, whose effect on the list is modelled as a havoc (tried)',
 'C13-m6':'order of file-system probes in moveOutFile (needs a crash between rename and record): file system not modelled',
 'C16-m6':'IncludeFilePath (path-prefix logic over MROPATH) not under contract',
+'C01-m8':'TopNode.resolveSplit not under contract',
+'C02-m8':'makeUniquifier is a trusted event (uniqueness of ids over wall-clock time is not modelled)',
+'C04-m7':'getLogicalFileNames: symlink resolution, file system not modelled',
+'C14-m7':'getLogicalFileNames: symlink resolution, file system not modelled',
+'C07-m7':'BindStms.compileWildcard not under contract',
+'C10-m8':'sort.Slice is trusted to sort; comparator consistency (strict weak order) is not an obligation',
+'C14-m8':'Metadata.enumerateTemp / cleanSplitTemp: file system not modelled',
+'C16-m8':'GetCallableFrom / IncludeFilePath (MROPATH layout) not under contract',
+'C18-m8':'change is in a job template file (jobmanagers/*.template), not in Go code; templates are outside the contracts',
 
 }
 rows=[]
